@@ -40,7 +40,7 @@ class C01(F.PropCheck):
                      'realloc never fails (FALSE branch of sproto_buffer_append not modelled); lck_* are no-ops']
     assumptions = ['theorems quantify over histories without staging overflow (an OVERFLOW output marks a dropped chunk)',
                    'handler pops the in-queue on every delivery (as supla_esp_on_remote_call_received does via srpc_getdata)']
-    rule = ('streams of 1-6 frames (valid / single-field corruption incl. wrapping 32-bit lengths / truncation / random bytes) x random, '
+    rule = ('bursts of 50-180 small frames that fill the 2 KiB parser buffer (5 %); streams of 1-6 frames (valid / single-field corruption incl. wrapping 32-bit lengths / truncation / random bytes) x random, '
             '1-byte and boundary chunkings x random tick interleaving; non-trivial = at least one DELIVER/RESTART/OVERFLOW observed; '
             'distinct by sha256 of the event text')
 
@@ -48,8 +48,29 @@ class C01(F.PropCheck):
         return F.build_c('c01', os.path.join(F.VERIF, 'harness', 'drv', 'c01.c'))
 
     # ---------------- generators
+    def gen_burst(self, rng):
+        """many small frames arriving faster than one per iterate: the parser buffer (BUFFER_MAX) fills up although the
+        staging buffer never overflows.  Frame sizes: all 23 / all 32 (256-byte chunks are whole frames) / random small;
+        optionally one large frame whose payload is itself a run of 32-byte frames, followed by a 59-byte frame (so that
+        a 256-byte hole inside the payload puts a later start tag where the end tag is expected)."""
+        c = consts(); total = rng.choice([1500, 1800, 2100, 2600, 3300, 4200]); parts = []; n = 0; rr = rng.randrange(1, 1000)
+        mode = rng.choice(['23', '32', '32', 'small', 'small'])
+        big_at = rng.choice([-1, -1, 0, 256, 700, 1500, 1800, 2000]) if mode != '23' else -1
+        def small(k):
+            nonlocal rr; rr += 1
+            return frame(rr, rng.choice([10, 40, 50, 70]), bytes(rng.getrandbits(8) for _ in range(k)))
+        while n < total:
+            if big_at >= 0 and n >= big_at:
+                m = rng.choice([8, 9, 12, 16, 30, 40]); pay = b''.join(small(9) for _ in range(m))
+                f = frame(rr, 50, pay) + small(36); big_at = -1
+            else:
+                f = small(0 if mode == '23' else 9 if mode == '32' else rng.choice([0, 1, 4, 9, 9, 20, 41, 100]))
+            parts.append(f); n += len(f)
+        return b''.join(parts), ['burst:' + mode]
+
     def gen_stream(self, rng):
         c = consts(); MAXD = c['MAX_DATA_SIZE']; HDR = c['SDP_SIZE'] - MAXD
+        if rng.random() < 0.05: return self.gen_burst(rng)
         nfr = rng.choice([1, 1, 2, 2, 3, 4, 6]); parts = []; tags = []
         bad_at = rng.randrange(nfr) if rng.random() < 0.45 else -1
         for i in range(nfr):
@@ -114,6 +135,10 @@ class C01(F.PropCheck):
             s, tags = self.gen_stream(rng)
             pieces = self.chunkings(rng, s)
             evs = []; tickp = rng.choice([0.0, 0.3, 1.0, 2.0])
+            if tags[0].startswith('burst'):
+                # keep the staging buffer as full as it may be: 256-byte chunks, one iterate per chunk
+                if rng.random() < 0.7: pieces = [s[j:j + 256] for j in range(0, len(s), 256)]; pieces = [s[:1024]] + [s[j:j + 256] for j in range(1024, len(s), 256)]
+                tickp = rng.choice([0.0, 0.0, 0.0, 0.3])
             overflow_case = rng.random() < 0.03
             staged = 0
             for p in pieces:
